@@ -66,6 +66,16 @@ package backend
 //@ axiom[C14] prev_gas_zero: forall d ref, b ref, r ref, n int :: {prevGasTo(d, b, r, n)} n <= 0 ==> prevGasTo(d, b, r, n) == 0
 //@ axiom[C14] prev_gas_step: forall d ref, b ref, r ref, n int :: {prevGasTo(d, b, r, n + 1)} n >= 0 ==> prevGasTo(d, b, r, n + 1) == prevGasTo(d, b, r, n) + prevGasAt(d, b, r, n)
 
+// What CONSENSUS records for the earlier transactions (C13; replayed: docs/findings-rpc.md F-rpc-1): a transaction that
+// was rejected by the ante handler (anteRejectedEth: Ethereum-shaped, non-zero code, no ethereum_tx event) is NOT counted;
+// everything else as above. consGasTo is the consensus sum; the code's sum prevGasTo agrees with it exactly when no
+// earlier Ethereum transaction of the block was rejected by the ante handler (C14.prev_loop_cumulative_consensus).
+//@ ghost func anteRejectedEth(dec ref, blk ref, rs ref, i int) bool = txDecodes(dec, blkTxBytes(blk, i)) && singleEthBytes(blkTxBytes(blk, i)) && brDropped(rs, i)
+//@ ghost func consGasAt(dec ref, blk ref, rs ref, i int) int = anteRejectedEth(dec, blk, rs, i) ? 0 : prevGasAt(dec, blk, rs, i)
+//@ ghost func consGasTo(dec ref, blk ref, rs ref, n int) int
+//@ axiom[C14] cons_gas_zero: forall d ref, b ref, r ref, n int :: {consGasTo(d, b, r, n)} n <= 0 ==> consGasTo(d, b, r, n) == 0
+//@ axiom[C14] cons_gas_step: forall d ref, b ref, r ref, n int :: {consGasTo(d, b, r, n + 1)} n >= 0 ==> consGasTo(d, b, r, n + 1) == consGasTo(d, b, r, n) + consGasAt(d, b, r, n)
+
 // ---------------------------------------------------------------------------------------------
 // Node client / indexer calls: trusted summaries returning unconstrained results (the node is outside the check).
 // The quantified ensures only NAME parts of the returned object (definitional, satisfiable for every response).
@@ -250,10 +260,12 @@ package backend
 //@   at call NewRPCReceiptFromReceipt@1 assert[C14.synthetic_tx_index] icReceipt == nil ==> receipt.TransactionIndex == asU64(res.EthTxIndex)
 //@   at call NewRPCReceiptFromReceipt@1 assert[C14.synthetic_tx_hash] icReceipt == nil ==> (receipt.TxHash == decHash(bytes(ethMsg.MarshalledTx)) && receipt.Type == decType(bytes(ethMsg.MarshalledTx)))
 //@   at call NewRPCReceiptFromReceipt@1 assert[C14.synthetic_cumulative_gas] icReceipt == nil ==> receipt.CumulativeGasUsed == (decGas(bytes(ethMsg.MarshalledTx)) + (res.EthTxIndex > 0 ? prevGasTo(b.clientCtx.TxConfig.TxDecoder(), resBlock, blockRes, res.TxIndex) : 0)) % pow2(64)
+//@   at call NewRPCReceiptFromReceipt@1 assert[C14.synthetic_cumulative_gas_consensus] (icReceipt == nil && res.EthTxIndex > 0 && (forall i int :: {brDropped(blockRes, i)} (0 <= i && i < res.TxIndex) ==> !anteRejectedEth(b.clientCtx.TxConfig.TxDecoder(), resBlock, blockRes, i))) ==> receipt.CumulativeGasUsed == (decGas(bytes(ethMsg.MarshalledTx)) + consGasTo(b.clientCtx.TxConfig.TxDecoder(), resBlock, blockRes, res.TxIndex)) % pow2(64)
 //@   at call NewRPCReceiptFromReceipt@1 assert[C14.synthetic_block] icReceipt == nil ==> (receipt.BlockHash == hashOfBytes(bytes(resBlock.BlockID.Hash)) && receipt.BlockNumber != nil && bigval[receipt.BlockNumber] == blockRes.Height)
 //@ loop 1
 //@   modifies res.EthTxIndex
 //@ loop 2
 //@   modifies txSrc
 //@   invariant[C14.prev_loop_bounds] -1 <= rangeindex && rangeindex < res.TxIndex && res.TxIndex <= len(resBlock.Block.Data.Txs)
+//@   invariant[C14.prev_loop_cumulative_consensus] (forall i int :: {brDropped(blockRes, i)} (0 <= i && i <= rangeindex) ==> !anteRejectedEth(b.clientCtx.TxConfig.TxDecoder(), resBlock, blockRes, i)) ==> cumulativeGasUsed == (txGas(ethTx) + consGasTo(b.clientCtx.TxConfig.TxDecoder(), resBlock, blockRes, rangeindex + 1)) % pow2(64)
 //@   invariant[C14.prev_loop_cumulative] cumulativeGasUsed == (txGas(ethTx) + prevGasTo(b.clientCtx.TxConfig.TxDecoder(), resBlock, blockRes, rangeindex + 1)) % pow2(64)
